@@ -41,7 +41,10 @@ func FQDN(domain string) string {
 func ForLookup(domain string) (string, error) {
 	// The ACE prefix and the encoded part of an A-label are case-insensitive
 	// but idna.ToUnicode decodes only labels with the lower-case "xn--".
-	uDomain, err := idna.ToUnicode(LowerASCII(domain))
+	// Normalization comes first, otherwise an ASCII letter is lowered apart
+	// from the combining mark it forms one character with ("I" + U+0307 is
+	// U+0130) and canonically equivalent spellings get different results.
+	uDomain, err := idna.ToUnicode(LowerASCII(norm.NFC.String(domain)))
 	if err != nil {
 		return strings.ToLower(domain), err
 	}
